@@ -109,6 +109,28 @@ func init() {
 				{File: d, Old: "func (t *DomainTable) Lookup(domain string) *DomainRoute {\n\tt.mu.RLock()", New: "func (t *DomainTable) Lookup(domain string) *DomainRoute {\n\tif domain == \"\" {\n\t\treturn nil\n\t}\n\tt.mu.RLock()"},
 				{File: fw, Old: "\tif routes, ok := t.routes[key]; ok && len(routes) > 0 {\n\t\treturn routes[0].Clone() // First is best due to sorting by metric\n\t}\n\treturn nil\n}", New: "\tif key == \"\" || len(t.routes) == 0 {\n\t\treturn nil\n\t}\n\tif routes, ok := t.routes[key]; ok && len(routes) > 0 {\n\t\treturn routes[0].Clone() // First is best due to sorting by metric\n\t}\n\treturn nil\n}"},
 			}},
+			{Name: "round3 rewrite: wildcard parent and case folding extracted into helpers", Edits: []Edit{
+				{File: d, Old: "\tidx := strings.Index(domain, \".\")\n\tif idx > 0 && idx < len(domain)-1 {\n\t\tbaseDomain := domain[idx+1:]\n\t\tif routes, ok := t.wildcardBase[baseDomain]; ok && len(routes) > 0 {\n\t\t\treturn routes[0].Clone()\n\t\t}\n\t}\n", New: "\tif parent, ok := wildcardParent(domain); ok {\n\t\tif routes := t.wildcardBase[parent]; len(routes) > 0 {\n\t\t\treturn routes[0].Clone()\n\t\t}\n\t}\n"},
+				{File: d, Old: "// lookupUnlocked performs lookup without locking (caller must hold lock).\nfunc (t *DomainTable) lookupUnlocked", New: "func wildcardParent(name string) (string, bool) {\n\tdot := strings.Index(name, \".\")\n\tif dot <= 0 || dot >= len(name)-1 {\n\t\treturn \"\", false\n\t}\n\treturn name[dot+1:], true\n}\n\nfunc normalizeDomain(s string) string {\n\treturn strings.ToLower(strings.TrimSpace(s))\n}\n\n// lookupUnlocked performs lookup without locking (caller must hold lock).\nfunc (t *DomainTable) lookupUnlocked"},
+				{File: d, Old: "\tdomain = strings.ToLower(domain)\n\n\t// 1. Check exact match first\n", New: "\tdomain = normalizeDomain(domain)\n\n\t// 1. Check exact match first\n"},
+				{File: d, Old: "\t\treturn t.wildcardBase, strings.ToLower(baseDomain)\n\t}\n\treturn t.exactRoutes, strings.ToLower(pattern)\n", New: "\t\treturn t.wildcardBase, normalizeDomain(baseDomain)\n\t}\n\treturn t.exactRoutes, normalizeDomain(pattern)\n"},
+			}},
+			{Name: "round3: extracted wildcard-parent helper cuts at the last dot", ExpectRule: "C09.R2", Edits: []Edit{
+				{File: d, Old: "\tidx := strings.Index(domain, \".\")\n\tif idx > 0 && idx < len(domain)-1 {\n\t\tbaseDomain := domain[idx+1:]\n\t\tif routes, ok := t.wildcardBase[baseDomain]; ok && len(routes) > 0 {\n\t\t\treturn routes[0].Clone()\n\t\t}\n\t}\n", New: "\tif parent, ok := wildcardParent(domain); ok {\n\t\tif routes := t.wildcardBase[parent]; len(routes) > 0 {\n\t\t\treturn routes[0].Clone()\n\t\t}\n\t}\n"},
+				{File: d, Old: "// lookupUnlocked performs lookup without locking (caller must hold lock).\nfunc (t *DomainTable) lookupUnlocked", New: "func wildcardParent(name string) (string, bool) {\n\tdot := strings.LastIndex(name, \".\")\n\tif dot <= 0 || dot >= len(name)-1 {\n\t\treturn \"\", false\n\t}\n\treturn name[dot+1:], true\n}\n\nfunc normalizeDomain(s string) string {\n\treturn strings.ToLower(strings.TrimSpace(s))\n}\n\n// lookupUnlocked performs lookup without locking (caller must hold lock).\nfunc (t *DomainTable) lookupUnlocked"},
+				{File: d, Old: "\tdomain = strings.ToLower(domain)\n\n\t// 1. Check exact match first\n", New: "\tdomain = normalizeDomain(domain)\n\n\t// 1. Check exact match first\n"},
+				{File: d, Old: "\t\treturn t.wildcardBase, strings.ToLower(baseDomain)\n\t}\n\treturn t.exactRoutes, strings.ToLower(pattern)\n", New: "\t\treturn t.wildcardBase, normalizeDomain(baseDomain)\n\t}\n\treturn t.exactRoutes, normalizeDomain(pattern)\n"},
+			}},
+			{Name: "round3: extracted normaliser no longer folds case", ExpectRule: "C09.R3", Edits: []Edit{
+				{File: d, Old: "\tidx := strings.Index(domain, \".\")\n\tif idx > 0 && idx < len(domain)-1 {\n\t\tbaseDomain := domain[idx+1:]\n\t\tif routes, ok := t.wildcardBase[baseDomain]; ok && len(routes) > 0 {\n\t\t\treturn routes[0].Clone()\n\t\t}\n\t}\n", New: "\tif parent, ok := wildcardParent(domain); ok {\n\t\tif routes := t.wildcardBase[parent]; len(routes) > 0 {\n\t\t\treturn routes[0].Clone()\n\t\t}\n\t}\n"},
+				{File: d, Old: "// lookupUnlocked performs lookup without locking (caller must hold lock).\nfunc (t *DomainTable) lookupUnlocked", New: "func wildcardParent(name string) (string, bool) {\n\tdot := strings.Index(name, \".\")\n\tif dot <= 0 || dot >= len(name)-1 {\n\t\treturn \"\", false\n\t}\n\treturn name[dot+1:], true\n}\n\nfunc normalizeDomain(s string) string {\n\treturn strings.TrimSpace(s)\n}\n\n// lookupUnlocked performs lookup without locking (caller must hold lock).\nfunc (t *DomainTable) lookupUnlocked"},
+				{File: d, Old: "\tdomain = strings.ToLower(domain)\n\n\t// 1. Check exact match first\n", New: "\tdomain = normalizeDomain(domain)\n\n\t// 1. Check exact match first\n"},
+				{File: d, Old: "\t\treturn t.wildcardBase, strings.ToLower(baseDomain)\n\t}\n\treturn t.exactRoutes, strings.ToLower(pattern)\n", New: "\t\treturn t.wildcardBase, normalizeDomain(baseDomain)\n\t}\n\treturn t.exactRoutes, normalizeDomain(pattern)\n"},
+			}},
+			{Name: "round3 rewrite: wildcard parent helper with empty-string sentinel (strings.Cut)", Edits: []Edit{
+				{File: d, Old: "\tidx := strings.Index(domain, \".\")\n\tif idx > 0 && idx < len(domain)-1 {\n\t\tbaseDomain := domain[idx+1:]\n\t\tif routes, ok := t.wildcardBase[baseDomain]; ok && len(routes) > 0 {\n\t\t\treturn routes[0].Clone()\n\t\t}\n\t}\n", New: "\tif parent := wildcardParentOf(domain); parent != \"\" {\n\t\tif routes := t.wildcardBase[parent]; len(routes) > 0 {\n\t\t\treturn routes[0].Clone()\n\t\t}\n\t}\n"},
+				{File: d, Old: "// lookupUnlocked performs lookup without locking (caller must hold lock).\nfunc (t *DomainTable) lookupUnlocked", New: "func wildcardParentOf(name string) string {\n\t_, rest, found := strings.Cut(name, \".\")\n\tif !found || strings.HasPrefix(name, \".\") {\n\t\treturn \"\"\n\t}\n\treturn rest\n}\n\n// lookupUnlocked performs lookup without locking (caller must hold lock).\nfunc (t *DomainTable) lookupUnlocked"},
+			}},
 			// rewrites
 			{Name: "rewrite: strings.Cut, negated conditions", Edits: []Edit{
 				{File: d, Old: "\tidx := strings.Index(domain, \".\")\n\tif idx > 0 && idx < len(domain)-1 {\n\t\tbaseDomain := domain[idx+1:]\n\t\tif routes, ok := t.wildcardBase[baseDomain]; ok && len(routes) > 0 {\n\t\t\treturn routes[0].Clone()\n\t\t}\n\t}\n", New: "\tlabel, baseDomain, found := strings.Cut(domain, \".\")\n\tif !found || label == \"\" || baseDomain == \"\" {\n\t\treturn nil\n\t}\n\troutes := t.wildcardBase[baseDomain]\n\tif len(routes) == 0 {\n\t\treturn nil\n\t}\n\treturn routes[0].Clone()\n"},
@@ -242,6 +264,7 @@ type c09Walk struct {
 	found  bool                // strings.Cut found
 	strLen int64
 	why    string
+	depth  int
 }
 
 func (w *c09Walk) fieldOfBucket(s ssa.Value) *types.Var {
@@ -249,7 +272,7 @@ func (w *c09Walk) fieldOfBucket(s ssa.Value) *types.Var {
 	if b == nil || b.tbl != w.t {
 		return nil
 	}
-	f, base := kit.LoadedField(b.mapVal)
+	f, base := c08Field(b.mapVal)
 	if f == nil || len(w.fn.Params) == 0 || base != ssa.Value(w.fn.Params[0]) {
 		return nil
 	}
@@ -305,7 +328,7 @@ func (w *c09Walk) atom(c ssa.Value) (bool, bool) {
 	if ex, ok := c.(*ssa.Extract); ok {
 		if lk, ok := ex.Tuple.(*ssa.Lookup); ok && lk.CommaOk && ex.Index == 1 {
 			if bk := w.m.mkBucket(lk.X, lk.Index, nil); bk != nil && bk.tbl == w.t {
-				if f, base := kit.LoadedField(lk.X); f != nil && base == ssa.Value(w.fn.Params[0]) {
+				if f, base := c08Field(lk.X); f != nil && base == ssa.Value(w.fn.Params[0]) {
 					return w.hit[f], true
 				}
 			}
@@ -313,6 +336,26 @@ func (w *c09Walk) atom(c ssa.Value) (bool, bool) {
 		if cc, ok := ex.Tuple.(*ssa.Call); ok {
 			if cal := kit.CalleeOf(cc); cal.Pkg == "strings" && cal.Name == "Cut" && ex.Index == 2 {
 				return w.found, true
+			}
+			// bool result of a package helper (e.g. parent, ok := wildcardParent(name))
+			if v, ok := w.helperResult(cc, ex.Index); ok {
+				if bv, isc := kit.ConstBool(v); isc {
+					return bv, true
+				}
+			}
+		}
+		return false, false
+	}
+	if cc, ok := c.(*ssa.Call); ok {
+		// a well-formed multi-label name neither starts nor ends with a dot
+		if cal := kit.CalleeOf(cc); cal.Pkg == "strings" && (cal.Name == "HasPrefix" || cal.Name == "HasSuffix") && len(cc.Call.Args) == 2 {
+			if sv, isc := kit.ConstString(cc.Call.Args[1]); isc && sv == "." {
+				return false, true
+			}
+		}
+		if v, ok := w.helperResult(cc, 0); ok {
+			if bv, isc := kit.ConstBool(v); isc {
+				return bv, true
 			}
 		}
 		return false, false
@@ -344,7 +387,7 @@ func (w *c09Walk) atom(c ssa.Value) (bool, bool) {
 		for _, pr := range [][2]ssa.Value{{b.X, b.Y}, {b.Y, b.X}} {
 			if s, ok := kit.ConstString(pr[0]); ok && s == "" {
 				if bt, ok := pr[1].Type().Underlying().(*types.Basic); ok && bt.Kind() == types.String {
-					return b.Op == token.NEQ, true
+					return w.emptyString(pr[1]) == (b.Op == token.EQL), true
 				}
 			}
 		}
@@ -355,6 +398,73 @@ func (w *c09Walk) atom(c ssa.Value) (bool, bool) {
 		return kit.CmpUnder(b.Op, c08Sign(x-y)), true
 	}
 	return false, false
+}
+
+// helperResult abstractly runs a helper of the routing package under the walk's scenario and
+// returns the value it returns for result idx (a value of the helper's body).
+func (w *c09Walk) helperResult(c *ssa.Call, idx int) (ssa.Value, bool) {
+	g := kit.CalleeOf(c).Static
+	if g == nil || len(g.Blocks) == 0 || kit.FuncPkgPath(g) != kit.PkgPath(c08Pkg) || w.depth > 1 || idx >= g.Signature.Results().Len() {
+		return nil, false
+	}
+	if c08RouteOfPtr(g.Signature.Results().At(idx).Type()) != nil {
+		return nil, false
+	}
+	w.depth++
+	res := kit.WalkCFG(g.Blocks[0], w.atom, nil)
+	w.depth--
+	if !res.Known || res.Block == nil || len(res.Block.Instrs) == 0 {
+		return nil, false
+	}
+	ret, ok := res.Block.Instrs[len(res.Block.Instrs)-1].(*ssa.Return)
+	if !ok || idx >= len(ret.Results) {
+		return nil, false
+	}
+	v := kit.ReturnResult(ret, idx)
+	for i := len(res.Path) - 1; i >= 1; i-- {
+		ph, ok := v.(*ssa.Phi)
+		if !ok {
+			break
+		}
+		if ph.Block() == res.Path[i] {
+			if in := c08PhiIncoming(ph, res.Path[i-1]); in != nil {
+				v = in
+				continue
+			}
+		}
+	}
+	return v, true
+}
+
+// emptyString: is string value v empty under the walk's scenario? Labels of a well-formed name
+// are non-empty; the parts of strings.Cut are empty when the separator is absent; a helper's
+// string result is what the helper returns under the scenario.
+func (w *c09Walk) emptyString(v ssa.Value) bool {
+	v = c08Resolve(v)
+	if sv, ok := kit.ConstString(v); ok {
+		return sv == ""
+	}
+	if ex, ok := v.(*ssa.Extract); ok {
+		if cc, ok := ex.Tuple.(*ssa.Call); ok {
+			if cal := kit.CalleeOf(cc); cal.Pkg == "strings" && cal.Name == "Cut" {
+				return ex.Index == 1 && !w.found
+			}
+			if hv, ok := w.helperResult(cc, ex.Index); ok {
+				if sv, isc := kit.ConstString(hv); isc {
+					return sv == ""
+				}
+			}
+		}
+		return false
+	}
+	if cc, ok := v.(*ssa.Call); ok {
+		if hv, ok := w.helperResult(cc, 0); ok {
+			if sv, isc := kit.ConstString(hv); isc {
+				return sv == ""
+			}
+		}
+	}
+	return false
 }
 
 type c09Ret struct {
@@ -428,7 +538,7 @@ func (m *c08Model) c09ReturnShape(t *c08Table, fn *ssa.Function, keyOK func(f *t
 		case *ssa.Lookup:
 			if c08RouteOfMap(x.X.Type()) == t.route {
 				lookups = append(lookups, x)
-				f, base := kit.LoadedField(x.X)
+				f, base := c08Field(x.X)
 				if f == nil || len(fn.Params) == 0 || base != ssa.Value(fn.Params[0]) {
 					bad = append(bad, "the bucket map read at "+p.Pos(x.Pos())+" is not a bucket map of the receiver")
 				} else if !keyOK(f, x.Index) {
@@ -552,64 +662,134 @@ func (m *c08Model) c09Keyed(r *kit.Report, t *c08Table) {
 
 // c09Fold: v passed through strings.ToLower/ToUpper (possibly inside a helper whose result
 // it is): returns the folding function's name, "" when some path is not folded.
-func (m *c08Model) c09Fold(v ssa.Value, d int) string {
-	if v == nil || d > 6 {
+func (m *c08Model) c09Fold(v ssa.Value, d int) string { return m.c09FoldCtx(v, d, nil) }
+
+// c09FoldFrame is one level of helper inlining: the helper's parameters stand for the
+// caller's arguments.
+type c09FoldFrame struct {
+	sub    c08Sub
+	parent *c09FoldFrame
+}
+
+const c09Neutral = "\x00neutral" // a constant "" result: folded whatever the function
+
+func c09Join(a, b string) (string, bool) {
+	switch {
+	case a == c09Neutral:
+		return b, true
+	case b == c09Neutral || a == b:
+		return a, true
+	}
+	return "", false
+}
+
+func (m *c08Model) c09FoldCtx(v ssa.Value, d int, fr *c09FoldFrame) string {
+	if v == nil || d > 8 {
 		return ""
 	}
 	switch x := v.(type) {
+	case *ssa.Const:
+		if sv, ok := kit.ConstString(x); ok && sv == "" {
+			return c09Neutral
+		}
+	case *ssa.Parameter:
+		if fr != nil {
+			if a, ok := fr.sub[x]; ok {
+				return m.c09FoldCtx(a, d+1, fr.parent)
+			}
+		}
 	case *ssa.Call:
 		cal := kit.CalleeOf(x)
 		if cal.Pkg == "strings" && (cal.Name == "ToLower" || cal.Name == "ToUpper") {
 			return cal.Name
 		}
-		if cal.Pkg == "strings" && cal.Name == "TrimSpace" && len(x.Call.Args) == 1 {
-			return m.c09Fold(x.Call.Args[0], d+1)
+		if cal.Pkg == "strings" && (cal.Name == "TrimSpace" || cal.Name == "TrimSuffix" || cal.Name == "TrimPrefix") && len(x.Call.Args) >= 1 {
+			return m.c09FoldCtx(x.Call.Args[0], d+1, fr)
 		}
 		if cal.Static != nil && kit.FuncPkgPath(cal.Static) == kit.PkgPath(c08Pkg) && cal.Static.Signature.Results().Len() == 1 {
-			return m.c09FoldResult(cal.Static, 0, d+1)
+			return m.c09FoldCall(x, 0, d+1, fr)
 		}
 	case *ssa.Extract:
 		if c, ok := x.Tuple.(*ssa.Call); ok {
 			if g := kit.CalleeOf(c).Static; g != nil && kit.FuncPkgPath(g) == kit.PkgPath(c08Pkg) {
-				return m.c09FoldResult(g, x.Index, d+1)
+				return m.c09FoldCall(c, x.Index, d+1, fr)
 			}
 			if cal := kit.CalleeOf(c); cal.Pkg == "strings" && cal.Name == "Cut" && len(c.Call.Args) == 2 {
-				return m.c09Fold(c.Call.Args[0], d+1)
+				return m.c09FoldCtx(c.Call.Args[0], d+1, fr)
 			}
 		}
 	case *ssa.Phi:
-		name := ""
-		for i, e := range x.Edges {
-			n := m.c09Fold(e, d+1)
-			if n == "" || (i > 0 && n != name) {
+		name := c09Neutral
+		for _, e := range x.Edges {
+			n := m.c09FoldCtx(e, d+1, fr)
+			if n == "" {
 				return ""
 			}
-			name = n
+			j, ok := c09Join(name, n)
+			if !ok {
+				return ""
+			}
+			name = j
 		}
 		return name
 	case *ssa.Slice:
-		return m.c09Fold(x.X, d+1)
+		return m.c09FoldCtx(x.X, d+1, fr)
 	case *ssa.UnOp:
 		if cv, ok := c08CellValue(x); ok {
-			return m.c09Fold(cv, d+1)
+			return m.c09FoldCtx(cv, d+1, fr)
+		}
+		if x.Op == token.MUL {
+			// element of strings.SplitN(folded, ...)
+			if ia, ok := x.X.(*ssa.IndexAddr); ok {
+				if c, ok := ia.X.(*ssa.Call); ok {
+					if cal := kit.CalleeOf(c); cal.Pkg == "strings" && (cal.Name == "SplitN" || cal.Name == "Split") && len(c.Call.Args) >= 1 {
+						return m.c09FoldCtx(c.Call.Args[0], d+1, fr)
+					}
+				}
+			}
 		}
 	}
 	return ""
 }
 
+// c09FoldCall folds result idx of a call of a package helper, its parameters bound to the
+// call's arguments.
+func (m *c08Model) c09FoldCall(c *ssa.Call, idx, d int, fr *c09FoldFrame) string {
+	g := kit.CalleeOf(c).Static
+	sub := c08Sub{}
+	for i, prm := range g.Params {
+		if i < len(c.Call.Args) {
+			sub[prm] = c.Call.Args[i]
+		}
+	}
+	return m.c09FoldRets(g, idx, d, &c09FoldFrame{sub: sub, parent: fr})
+}
+
+// c09FoldResult: result idx of g is folded on every return whatever the arguments.
 func (m *c08Model) c09FoldResult(g *ssa.Function, idx, d int) string {
-	name := ""
+	return m.c09FoldRets(g, idx, d, nil)
+}
+
+func (m *c08Model) c09FoldRets(g *ssa.Function, idx, d int, fr *c09FoldFrame) string {
+	name := c09Neutral
 	n := 0
 	for _, ret := range kit.Returns(g) {
 		if ret.Block() == g.Recover || idx >= len(ret.Results) {
 			continue
 		}
-		f := m.c09Fold(kit.ReturnResult(ret, idx), d)
-		if f == "" || (n > 0 && f != name) {
+		f := m.c09FoldCtx(kit.ReturnResult(ret, idx), d, fr)
+		if f == "" {
 			return ""
 		}
-		name = f
+		j, ok := c09Join(name, f)
+		if !ok {
+			return ""
+		}
+		name = j
 		n++
+	}
+	if n == 0 || name == c09Neutral {
+		return ""
 	}
 	return name
 }
@@ -622,7 +802,7 @@ func (m *c08Model) c09MapRoles(t *c08Table) (exact, wild *types.Var) {
 			b, ok := prm.Type().Underlying().(*types.Basic)
 			return ok && b.Kind() == types.Bool
 		}
-		f, _ := kit.LoadedField(c)
+		f, _ := c08Field(c)
 		return f != nil && f == t.rf["IsWildcard"]
 	}
 	assign := func(f *types.Var, blk *ssa.BasicBlock) {
@@ -639,7 +819,7 @@ func (m *c08Model) c09MapRoles(t *c08Table) (exact, wild *types.Var) {
 		}
 	}
 	bucketField := func(v ssa.Value) *types.Var {
-		f, _ := kit.LoadedField(v)
+		f, _ := c08Field(v)
 		for _, bf := range t.buckets {
 			if bf == f {
 				return f
@@ -711,6 +891,14 @@ func (m *c08Model) c09Domain(r *kit.Report, t *c08Table) {
 	var folded *ssa.Call
 	kit.Instrs(scan, func(in ssa.Instruction) {
 		if c, ok := in.(*ssa.Call); ok {
+			// a normalising helper of the package applied to the name
+			if g := kit.CalleeOf(c).Static; g != nil && folded == nil && kit.FuncPkgPath(g) == kit.PkgPath(c08Pkg) && g.Signature.Results().Len() == 1 && m.c09FoldResult(g, 0, 1) != "" {
+				for _, a := range c.Call.Args {
+					if c08Resolve(a) == nameParam {
+						folded = c
+					}
+				}
+			}
 			if cal := kit.CalleeOf(c); cal.Pkg == "strings" && (cal.Name == "ToLower" || cal.Name == "ToUpper") && len(c.Call.Args) == 1 {
 				a := c.Call.Args[0]
 				if cc, ok := a.(*ssa.Call); ok && kit.CalleeOf(cc).Pkg == "strings" && kit.CalleeOf(cc).Name == "TrimSpace" {
@@ -723,6 +911,7 @@ func (m *c08Model) c09Domain(r *kit.Report, t *c08Table) {
 		}
 	})
 	isName := func(v ssa.Value) bool { // the (folded) looked-up name
+		v = c08Resolve(v)
 		if folded != nil {
 			return v == ssa.Value(folded)
 		}
@@ -771,11 +960,11 @@ func (m *c08Model) c09Domain(r *kit.Report, t *c08Table) {
 	kit.Instrs(scan, func(in ssa.Instruction) {
 		switch x := in.(type) {
 		case *ssa.Range:
-			if f, _ := kit.LoadedField(x.X); f == wild {
+			if f, _ := c08Field(x.X); f == wild {
 				r2bad = append(r2bad, "the wildcard map is iterated at "+p.Pos(x.Pos())+" (suffix matching reaches wildcards more than one label up)")
 			}
 		case *ssa.Lookup:
-			if f, _ := kit.LoadedField(x.X); f == wild {
+			if f, _ := c08Field(x.X); f == wild {
 				nWild++
 				wildKeys = append(wildKeys, x.Index)
 				if c08BlockReaches(x.Block(), x.Block()) {
@@ -788,7 +977,7 @@ func (m *c08Model) c09Domain(r *kit.Report, t *c08Table) {
 	kit.Instrs(scan, func(in ssa.Instruction) {
 		if c, ok := in.(ssa.CallInstruction); ok {
 			for _, a := range c.Common().Args {
-				if f, _ := kit.LoadedField(a); f == wild {
+				if f, _ := c08Field(a); f == wild {
 					r2bad = append(r2bad, "the wildcard map is handed to "+kit.CalleeOf(c).String()+" at "+p.Pos(c.Pos()))
 				}
 			}
@@ -824,7 +1013,7 @@ func (m *c08Model) c09Domain(r *kit.Report, t *c08Table) {
 	// ---- R3: case agreement
 	lookFold := ""
 	if folded != nil {
-		lookFold = kit.CalleeOf(folded).Name
+		lookFold = m.c09Fold(folded, 0)
 	}
 	var r3bad []string
 	if lookFold == "" {
@@ -859,8 +1048,53 @@ func (m *c08Model) c09Domain(r *kit.Report, t *c08Table) {
 
 // c09SuffixKey: k is the suffix after the first dot of the folded name. Returns "" when it is.
 func c09SuffixKey(k ssa.Value, isName func(ssa.Value) bool) string {
-	if cv, ok := c08CellValue(k); ok {
-		k = cv
+	return c09SuffixKeyD(k, isName, 0)
+}
+
+func c09SuffixKeyD(k ssa.Value, isName func(ssa.Value) bool, depth int) string {
+	k = c08Resolve(k)
+	// the suffix computed by a helper of the package: every return yields "" or the suffix of
+	// the helper's own name parameter
+	if depth < 2 {
+		var hc *ssa.Call
+		idx := 0
+		switch x := k.(type) {
+		case *ssa.Call:
+			hc = x
+		case *ssa.Extract:
+			hc, _ = x.Tuple.(*ssa.Call)
+			idx = x.Index
+		}
+		if hc != nil {
+			if g := kit.CalleeOf(hc).Static; g != nil && len(g.Blocks) > 0 && kit.FuncPkgPath(g) == kit.PkgPath(c08Pkg) {
+				var prm *ssa.Parameter
+				for i, a := range hc.Call.Args {
+					if isName(a) && i < len(g.Params) {
+						prm = g.Params[i]
+					}
+				}
+				if prm != nil {
+					n := 0
+					for _, ret := range kit.Returns(g) {
+						if ret.Block() == g.Recover || idx >= len(ret.Results) {
+							continue
+						}
+						for _, leaf := range kit.PhiLeaves(kit.ReturnResult(ret, idx)) {
+							if sv, isc := kit.ConstString(leaf); isc && sv == "" {
+								continue
+							}
+							n++
+							if why := c09SuffixKeyD(leaf, func(v ssa.Value) bool { return c08Resolve(v) == ssa.Value(prm) }, depth+1); why != "" {
+								return why
+							}
+						}
+					}
+					if n > 0 {
+						return ""
+					}
+				}
+			}
+		}
 	}
 	const notFirst = "is not the suffix after the FIRST dot of the looked-up name (accepted: name[strings.Index(name, \".\")+1:], strings.Cut(name, \".\") after, strings.SplitN(name, \".\", 2)[1])"
 	isDot := func(v ssa.Value) bool {
